@@ -32,6 +32,9 @@ ASSUMPTIONS = [
 
 FRAGS = ["<", ">", "&", "\"", "'", "<script>alert(1)</script>", "</TT><script>", "\" onmouseover=\"x", "' onclick='x", "<b>",
          "&lt;", "&amp;", "&#60;", "-->", "<!--", "]]>", "</a>", "<a href=\"http://evil/\">", "</card>", "<do type=\"accept\">",
+         # line breaks and TABs written as character references (whatever decodes them must do so before control characters
+         # are taken out)
+         "&#13;&#10;+ABSTRACT:&#13;&#10; forged", "&#xA;+ADMIN:&#xa;", "&NewLine;+VIEWS:", "&#9;/x&#9;evil.example&#9;70", "&Tab;",
          "$(sr0)", "+INFO: 1fake\tfake\tfake\t70", "+ADMIN:", "+VIEWS:", "\r\n", "\n", "\r\nSet-Cookie: x=1", "\r\n\r\n<html>",
          "%0d%0a", "%22", "%3c", "abc", "x y", "\xc3\xa9", "\xff",
          # compatibility characters that a Unicode normalisation or an "ASCII-fying" step turns INTO markup characters
@@ -62,7 +65,7 @@ def _pq(p, enc):
     return p
 
 
-POSITIONS = ["noname-path", "noname-remote-path", "selector-error", "url-redirect", "filename", "dirname", "html-title", "subject", "abstract-sidecar",
+POSITIONS = ["noname-path", "noname-remote-path", "selector-error", "url-redirect", "filename", "dirname", "html-title", "html-title-raw", "subject", "abstract-sidecar",
              "linkfile-name", "linkfile-abstract", "linkfile-path", "linkfile-urlpath", "linkfile-host", "map-desc", "map-sel",
              "map-url", "map-host", "wap-text", "search-item-path", "keywords-sidecar",
              "url-dirname", "url-filename", "linkfile-url-noscheme", "map-url-noscheme", "subject-qenc", "subject-b64",
@@ -71,7 +74,7 @@ POSITIONS = ["noname-path", "noname-remote-path", "selector-error", "url-redirec
              "request-header"]
 HTML_FORMS = ["http", "https", "wap", "waphdr"]
 GP_FORMS = ["gdollar", "gbang"]
-GP_POSITIONS = {"filename", "html-title", "subject", "subject-qenc", "subject-b64", "abstract-sidecar", "linkfile-name", "linkfile-abstract", "map-desc",
+GP_POSITIONS = {"filename", "html-title", "html-title-raw", "subject", "subject-qenc", "subject-b64", "abstract-sidecar", "linkfile-name", "linkfile-abstract", "map-desc",
                 "keywords-sidecar", "dirname"}
 
 
@@ -83,7 +86,13 @@ def _case(draw):
         forms = ["wap", "waphdr"]
     if pos in ("dir-search", "request-header"):
         forms = ["http", "https", "wap", "waphdr"]
-    return {"pos": pos, "payload": _pq(draw(payload_st), draw(st.sampled_from([0, 0, 0, 0, 0, 0, 1, 2]))),
+    pst = payload_st
+    if pos == "html-title-raw":
+        # (half of these: a line break written as a character reference, then something that would pass for a line of its own)
+        pst = st.one_of(payload_st, st.builds(lambda a, b, c: a + b + c, st.sampled_from(["News", "x", ""]),
+                                              st.sampled_from(["&#13;&#10;", "&#xA;", "&NewLine;", "&#10;", "&#x0d;&#x0a;"]),
+                                              st.sampled_from(["+ABSTRACT:&#10; forged", "+ADMIN:", "+INFO: 1fake&#9;fake&#9;fake&#9;70", "+VIEWS:", "1fake&Tab;/&Tab;evil.example&Tab;70"])))
+    return {"pos": pos, "payload": _pq(draw(pst), draw(st.sampled_from([0, 0, 0, 0, 0, 0, 1, 2]))),
             "form": draw(st.sampled_from(forms)), "n": draw(st.integers(0, 999)),
             "fill": draw(st.sampled_from([0, 0, 13])),
             # the administrator's page header (option 'pagetopper', into which the page's gopher URL is interpolated) may quote
@@ -172,6 +181,10 @@ def _build(pos, v, n, fill=0):
         spec.append(["d/gophermap", "f", fillmap + "hMail\tURL:%s\n" % v])
     elif pos == "html-title":
         spec.append(["d/page.html", "f", "<html><head><title>%s</title></head><body></body></html>\n" % html.escape(v)])
+    elif pos == "html-title-raw":
+        # the payload is HTML SOURCE between the title tags (its author may write character references, or markup that ends
+        # the title early): whatever text the server takes from it is text
+        spec.append(["d/page.html", "f", "<html><head><title>%s</title></head><body></body></html>\n" % v])
     elif pos == "subject":
         spec = [["box.mbox", "f", sites.mbox_text([v or "x", "second"])]]
         sel = "/box.mbox"
@@ -242,7 +255,7 @@ def _fetch(pos, v, n, form, fill=0):
         selb = world.b(sel)
         if form == "gbang":
             # item info of the decorated item
-            target = {"filename": "/d/" + v, "html-title": "/d/page.html", "abstract-sidecar": "/d/zz.txt",
+            target = {"filename": "/d/" + v, "html-title": "/d/page.html", "html-title-raw": "/d/page.html", "abstract-sidecar": "/d/zz.txt",
                       "keywords-sidecar": "/d/zz.txt", "subject": "/box.mbox|/MBOX-MESSAGE/1", "dirname": "/" + v,
                       "subject-qenc": "/box.mbox|/MBOX-MESSAGE/1", "subject-b64": "/box.mbox|/MBOX-MESSAGE/1"}.get(pos)
             if target is None:
